@@ -38,7 +38,7 @@ import (
 	"verif/vlib"
 )
 
-func init() { vlib.Register("C09", "exploration", runC09) }
+func init() { vlib.Register("C09", "model_checking", runC09) }
 
 const c09Max = ^uint64(0)
 
